@@ -246,11 +246,27 @@ func severalConfigs(c *Case, st *Stats) string {
 	for i := 0; i < len(c.Path); i++ {
 		k += int(c.Path[i])
 	}
-	k %= 9
+	k %= 10
 	if k == 0 {
 		return ""
 	}
 	var cfgs []jsonpath.Config
+	if k == 9 {
+		// a Config list that happens to be empty (not nil), spread into the call
+		cfgs = []jsonpath.Config{}
+		f, err := jsonpath.Parse(c.Path, cfgs...)
+		st.Eval(1)
+		st.Class("several-configs:empty-slice")
+		if msg := parseOutcome(f, err); msg != "" {
+			return "with an empty Config slice spread into the call: " + msg
+		}
+		f0, err0 := jsonpath.Parse(c.Path)
+		if (err == nil) != (err0 == nil) || (err != nil && (reflect.TypeOf(err) != reflect.TypeOf(err0) || err.Error() != err0.Error())) {
+			return fmt.Sprintf("Parse(path, emptySlice...) gives %v, Parse(path) gives %v", err, err0)
+		}
+		_ = f0
+		return ""
+	}
 	if k == 8 {
 		// one Config that also registers functions under names no path can spell (empty, with a
 		// blank, a dot, non-ASCII): such a Config is still a Config
